@@ -48,10 +48,13 @@ var DocPool = []string{
 	"http://h.example/x/remote.json",
 	"http://h.example/x/y/far.json",
 	"https://s.example/sec.json",
+	"file:///w/a/Sib.json",                 // differs from sib.json by letter case only
+	"file:///w/ab/side.json",               // its directory name starts with the root's directory name
+	"http://h.example/x/remote.json?rev=2", // the query is part of the location of a remote document
 }
 
 // NamePool: element and property names, several needing ~0/~1 or percent escapes.
-var NamePool = []string{"a", "b", "c", "d e", "f/g", "h~i", "j%k", "l{m}", "é", "n#o", "p?q", "~1", "%41"}
+var NamePool = []string{"a", "b", "c", "d e", "f/g", "h~i", "j%k", "l{m}", "é", "n#o", "p?q", "~1", "%41", "A", "B"}
 
 // QuoteNames need JSON string escaping when used as member names.
 var QuoteNames = []string{"q\"r", "s\\t", "u\nv"}
@@ -331,6 +334,13 @@ func Spell(t *rapid.T, hdoc string, tp model.Pos, allowed Spelling) string {
 	tu, _ := url.Parse(tp.Doc)
 	sameDoc := tp.Doc == hdoc
 	sameHost := hu.Scheme == tu.Scheme && hu.Host == tu.Host
+	// A query is part of the location of a document, but how a *relative* $ref combines with a query is
+	// deliberately not RFC 3986 in this package (the suite pins that a relative $ref inherits the query of its
+	// base) and no listed property fixes it: documents with a query are therefore only referred to, and only
+	// refer to others, by fragment-only or absolute $refs, on which both readings agree.
+	if hu.RawQuery != "" || tu.RawQuery != "" {
+		allowed &= SpellFragment | SpellAbsolute
+	}
 	var styles []Spelling
 	for _, st := range []Spelling{SpellFragment, SpellRelative, SpellDotSlash, SpellAbsolute, SpellRootRel} {
 		if allowed&st == 0 {
@@ -354,19 +364,23 @@ func Spell(t *rapid.T, hdoc string, tp model.Pos, allowed Spelling) string {
 	if len(styles) == 0 {
 		styles = []Spelling{SpellAbsolute}
 	}
+	query := ""
+	if tu.RawQuery != "" {
+		query = "?" + tu.RawQuery
+	}
 	switch styles[Uniform(t, "style", len(styles))] {
 	case SpellFragment:
 		return frag
 	case SpellRelative:
-		return relPath(hu.Path, tu.Path) + frag
+		return relPath(hu.Path, tu.Path) + query + frag
 	case SpellDotSlash:
 		rel := relPath(hu.Path, tu.Path)
 		if !strings.HasPrefix(rel, "../") {
 			rel = "./" + rel
 		}
-		return rel + frag
+		return rel + query + frag
 	case SpellRootRel:
-		return tu.Path + frag
+		return tu.Path + query + frag
 	}
 	if allowed&SpellMessy != 0 && Pct(t, "messyabs", 20) {
 		// an equivalent, non-canonical absolute URL: redundant dot segments, upper-case scheme/host, default port
